@@ -225,7 +225,7 @@ func (c *Corpus) conformModule(m *Module) []Excluded {
 			wantNames = append(wantNames, w.GoName)
 		}
 		if strings.Join(got, ",") != strings.Join(wantNames, ",") {
-			bad(u, "struct", "field-order:"+s.Family, "fields are emitted as [%s], ascending tag order is [%s]", strings.Join(got, ","), strings.Join(wantNames, ","))
+			bad(u, "struct", "field-order", "fields are emitted as [%s], ascending tag order is [%s]", strings.Join(got, ","), strings.Join(wantNames, ","))
 			continue
 		}
 		okS := true
